@@ -543,6 +543,7 @@ func runC40(c *core.Ctx) error {
 	}
 	byClass := map[string]int{}
 	rejected, accepted := 0, 0
+	mismatches := 0 // every mismatch is re-run in a fresh driver process: stop after a few
 	var firstObs []jObs
 	for ei, env := range envs {
 		obs, race, err := runExtras(c, drvPath, env, items)
@@ -564,6 +565,7 @@ func runC40(c *core.Ctx) error {
 				accepted++
 			}
 			if bad != "" {
+				mismatches++
 				// reproduce in a fresh process
 				obs2, _, err := runExtras(c, drvPath, env, []xItem{it})
 				if err != nil {
@@ -576,11 +578,12 @@ func runC40(c *core.Ctx) error {
 					map[string]any{"env": env, "case": it.j, "model_case": it.m, "expected": it.e, "observed": obs[i]})
 			}
 			c.Add("evaluations", 1)
-			if c.NViolations() > 20 {
+			if mismatches >= 8 {
 				break
 			}
 		}
-		if c.NViolations() > 20 {
+		if mismatches >= 8 {
+			c.Logf("stopping the replay after %d reproduced mismatches", mismatches)
 			break
 		}
 	}
